@@ -450,6 +450,32 @@ func (tt *TermTable) Bin(op Op, a, b *Term) *Term {
 		}
 	}
 	zero := func(t *Term) bool { return t.IsConst() && t.Val.Sign() == 0 }
+	// division / remainder by a constant power of two: shifts and masks
+	if b.IsConst() && (op == OpUDiv || op == OpURem || op == OpSDiv || op == OpSRem) && b.Val.Sign() > 0 &&
+		b.Val.BitLen() < w && new(big.Int).And(b.Val, new(big.Int).Sub(b.Val, big.NewInt(1))).Sign() == 0 {
+		k := b.Val.BitLen() - 1
+		if k == 0 {
+			if op == OpUDiv || op == OpSDiv {
+				return a
+			}
+			return tt.BV(0, w)
+		}
+		kk := tt.BV(uint64(k), w)
+		switch op {
+		case OpUDiv:
+			return tt.Bin(OpLShr, a, kk)
+		case OpURem:
+			return tt.ZExt(tt.Extract(a, k-1, 0), w)
+		case OpSDiv, OpSRem:
+			sign := tt.Bin(OpAShr, a, tt.BV(uint64(w-1), w))
+			bias := tt.Bin(OpLShr, sign, tt.BV(uint64(w-k), w))
+			q := tt.Bin(OpAShr, tt.Bin(OpAdd, a, bias), kk)
+			if op == OpSDiv {
+				return q
+			}
+			return tt.Bin(OpSub, a, tt.Bin(OpShl, q, kk))
+		}
+	}
 	switch op {
 	case OpAdd:
 		if zero(a) {
